@@ -108,7 +108,7 @@ pub fn history_strategy() -> impl Strategy<Value = History> {
     // crate's default downlink queue of depth 1
     let fronts = prop_oneof![
         9 => (0usize..3).prop_map(|k| [FrontKind::Nb, FrontKind::Async, FrontKind::AsyncClassC][k]),
-        3 => (0usize..7).prop_map(|k| [FrontKind::NbBuf64, FrontKind::NbBuf255, FrontKind::AsyncBuf64, FrontKind::AsyncBuf255, FrontKind::NbQ1, FrontKind::AsyncQ1, FrontKind::AsyncSeeded][k]),
+        3 => (0usize..6).prop_map(|k| [FrontKind::NbBuf64, FrontKind::NbBuf255, FrontKind::AsyncBuf64, FrontKind::AsyncBuf255, FrontKind::NbQ1, FrontKind::AsyncQ1][k]),
     ];
     (fronts, 0usize..9, starts, any::<u64>(), any::<bool>()).prop_flat_map(|(front, ri, start, seed, nb_async)| {
         let class_c = front.class_c();
